@@ -10,7 +10,7 @@ if [ ! -x $VERIF/out/bin/vinstr ] || [ -n "$(find $VERIF/tools -newer $VERIF/out
   (cd $VERIF/tools && go build -o $VERIF/out/bin/vinstr ./vinstr) >&2
 fi
 KEY=$( (cd $REPO && find lambda cmd go.mod go.sum -type f \( -name '*.go' -o -name 'go.mod' -o -name 'go.sum' \) -print0 | sort -z | xargs -0 sha256sum; \
-        cd $VERIF && find rt harness entry tools -type f -name '*.go' -print0 | sort -z | xargs -0 sha256sum; echo $REPO $VERIF ${VERIF_RACE:-}) | sha256sum | cut -c1-16)
+        cd $VERIF && find rt harness entry tools racy_sites.txt -type f \( -name "*.go" -o -name racy_sites.txt \) -print0 | sort -z | xargs -0 sha256sum; echo $REPO $VERIF ${VERIF_RACE:-}) | sha256sum | cut -c1-16)
 DIR=$VERIF/out/build/$KEY
 BIN=$DIR/rie.verif.test
 exec 9>$VERIF/out/build/.lock
